@@ -1,11 +1,15 @@
 package props
 
 import (
+	"bytes"
 	"encoding/json"
 	"fmt"
+	"io"
 	"reflect"
 	"strconv"
+	"strings"
 	"testing"
+	"testing/iotest"
 
 	"github.com/hashicorp/go-bexpr/grammar"
 	"pgregory.net/rapid"
@@ -47,6 +51,61 @@ func c16Parse(t failer, test string, c *c16Case, text string, want grammar.Expre
 	if !reflect.DeepEqual(got, want) {
 		violation(t, "C16", test, c, "rendering %s parses to a different tree\n got:\n%s want:\n%s", strconv.Quote(text), dumpAST(got.(grammar.Expression)), dumpAST(want))
 	}
+	// the text may arrive through any io.Reader: all at once, byte by byte, in halves, the last bytes together with io.EOF
+	if len(text) > 300 || len(text)%4 != 0 {
+		return // a quarter of the (short) texts: 8 more parses each
+	}
+	for name, rd := range readersOf([]byte(text)) {
+		rgot, rerr := grammar.ParseReader("", rd)
+		if rerr != nil || !reflect.DeepEqual(rgot, want) {
+			violation(t, "C16", test, c, "rendering %s read through %s: error %v, tree\n%s want:\n%s", strconv.Quote(text), name, rerr, dumpAST2(rgot), dumpAST(want))
+		}
+	}
+}
+
+// chunkReader returns its data in the given chunk sizes; the LAST chunk comes together with io.EOF
+// (as http bodies of known length, flate streams and many hand-written readers do).
+type chunkReader struct {
+	data   []byte
+	chunks []int
+}
+
+func (c *chunkReader) Read(p []byte) (int, error) {
+	if len(c.data) == 0 {
+		return 0, io.EOF
+	}
+	n := len(c.data)
+	if len(c.chunks) > 0 {
+		n, c.chunks = min(c.chunks[0], n), c.chunks[1:]
+	}
+	n = min(n, len(p))
+	copy(p, c.data[:n])
+	c.data = c.data[n:]
+	if len(c.data) == 0 {
+		return n, io.EOF
+	}
+	return n, nil
+}
+
+func readersOf(b []byte) map[string]io.Reader {
+	cp := func() []byte { return append([]byte(nil), b...) }
+	return map[string]io.Reader{
+		"strings.Reader":                                    strings.NewReader(string(b)),
+		"bytes.Buffer":                                      bytes.NewBuffer(cp()),
+		"iotest.OneByteReader":                              iotest.OneByteReader(bytes.NewReader(cp())),
+		"iotest.HalfReader":                                 iotest.HalfReader(bytes.NewReader(cp())),
+		"iotest.DataErrReader":                              iotest.DataErrReader(bytes.NewReader(cp())),
+		"a reader returning all bytes with io.EOF":          &chunkReader{data: cp()},
+		"a reader returning 2 chunks, the last with io.EOF": &chunkReader{data: cp(), chunks: []int{len(b) / 2}},
+		"a reader returning chunks of 3, 1, 7, rest+EOF":    &chunkReader{data: cp(), chunks: []int{3, 1, 7}},
+	}
+}
+
+func dumpAST2(v interface{}) string {
+	if e, ok := v.(grammar.Expression); ok {
+		return dumpAST(e)
+	}
+	return fmt.Sprintf("<%T>", v)
 }
 
 func init() {
